@@ -170,6 +170,11 @@ def run(ctx):
                             dofs.append((i2, j2))
                 ok = iv == 5 and six == [False] and len(dofs) == 1
         ctx.check(ok, 'R06.5', 'urdf/suppress-j6', b.where(0), b.path, 'sign_corrections[5] = 0 and dof = 5 must be set together, exactly when joint 6 is absent')
+    # "J6 as requested" and "tool point exact" are statements about the whole wrapper stack too: every wrapper must hand the
+    # 5-DOF entry points to the same entry point of its inner robot with j6 / previous unchanged - the delegation and
+    # pass-through clauses of C09 are re-checked here
+    from . import C09
+    C09.run(ctx)
 
 
 def _suppress(ctx, b, key, pred):
